@@ -64,7 +64,11 @@ def func_returns_none(field, observers):
     return None
 
 
-FUNCS = {"good": good_func, "good2": good_func2, "badargs": func_bad_args, "badshape": func_bad_shape,
+def func_bad_h(field, observers):
+    return np.zeros((len(observers), 3)) if field == "B" else np.zeros((len(observers), 2))
+
+
+FUNCS = {"badH": func_bad_h, "good": good_func, "good2": good_func2, "badargs": func_bad_args, "badshape": func_bad_shape,
          "list": func_returns_list, "none": func_returns_none}
 
 
@@ -74,10 +78,20 @@ def magnet_attrs(extra):
     return d
 
 
+def make_collection(**kw):
+    """a Collection with one magnet child and one sensor child (children follow the collection's pose setters)"""
+    return magpy.Collection(magpy.magnet.Cuboid(dimension=(1, 1, 1), polarization=(0, 0, 1), position=(0.5, 0, 0)),
+                            magpy.Sensor(position=(0, 0, 4)), **kw)
+
+
+make_collection.__mro__ = magpy.Collection.__mro__     # owner_of() looks the defining class up here
+
+
 def specs():
     M, C, X = magpy.magnet, magpy.current, magpy.misc
     pol = [0.5, 0.25, 1.0]
     return {
+        "Collection": (make_collection, {}, {"position": POS, "orientation": ORI}),
         "Cuboid": (M.Cuboid, {"dimension": [1.0, 2.0, 3.0], "polarization": pol},
                    magnet_attrs({"dimension": ("vec", 3, "pos")})),
         "Cylinder": (M.Cylinder, {"dimension": [1.0, 2.0], "polarization": pol},
@@ -281,7 +295,14 @@ def doc_valid(doc, v):
     if kind == "vecpath":
         return s == (3,) or (len(s) == 2 and s[1] == 3 and s[0] >= 1)
     if kind == "mat":
-        return s == (doc[1], doc[2])
+        if s != (doc[1], doc[2]):
+            return False
+        if s == (4, 3):
+            a = np.array(build(v), dtype=float)
+            if np.linalg.matrix_rank(a[1:] - a[0]) < 3:
+                return None   # zero-volume tetrahedron: not excluded by the docstring, rejecting it is fine; the
+                              # `computable` clause still demands that an ACCEPTED one does not crash getB
+        return True
     if kind == "rows":
         return len(s) == 2 and s[1] == doc[2] and s[0] >= doc[1]
     if kind == "grid":
@@ -574,6 +595,9 @@ def make_obj(cls_name, override=None):
 
 def snap(obj):
     out = {"_position": np.array(obj._position, copy=True), "_orientation": obj._orientation.as_quat().copy()}
+    for i, ch in enumerate(getattr(obj, "children", [])):     # a rejected pose assignment must not move the children
+        out[f"child{i}_position"] = np.array(ch._position, copy=True)
+        out[f"child{i}_orientation"] = ch._orientation.as_quat().copy()
     for a in DATA_ATTRS:
         if hasattr(obj, a):
             x = getattr(obj, "_" + a, None)
@@ -705,12 +729,16 @@ def compute_problem(obj):
     internal error"""
     global _SRC         # pylint: disable=global-statement
     try:
-        if isinstance(obj, magpy.Sensor):
+        if isinstance(obj, magpy.Collection):
+            out = magpy.getB(obj, OBS)
+        elif isinstance(obj, magpy.Sensor):
             if _SRC is None:
                 _SRC = magpy.magnet.Cuboid(dimension=(1, 1, 1), polarization=(0, 0, 1), position=(0.2, 0.1, 3))
             out = _SRC.getB(obj)
         else:
             out = obj.getB(OBS)
+            if isinstance(obj, magpy.misc.CustomSource):
+                obj.getH(OBS)        # a custom field function serves B and H separately
         if not isinstance(out, np.ndarray):
             return f"getB returned {type(out).__name__}"
     except LIB_ERRORS:
@@ -814,6 +842,7 @@ def shrink_value(cls_name, attr, clause, v):
 
 def sweep(ctx, big):
     """the search: the oracle over classes x attributes x grammar, both routes"""
+    
     rng = ctx.rng
     shared = battery_types() + battery_shapes(rng, ctx.n(10, 600) * (3 if big else 1))
     found = {}
@@ -918,6 +947,43 @@ def c_minput(val):
     return "MHashable"
 
 
+def c_oinput(val):
+    if val is None:
+        return "ONone"
+    if isinstance(val, R):
+        return f"(ORot {'true' if val.single else 'false'} {1 if val.single else len(val)})"
+    return "ONotRotation"
+
+
+def c_oout(outcome, obj):
+    if outcome == "lib":
+        return "ORejected"
+    if outcome != "accepted":
+        return "OCrashed"
+    return f"(OStored {len(np.reshape(obj._orientation.as_quat(), (-1, 4)))})"
+
+
+def c_finput(val):
+    """what validate_field_func can observe of the value (the probe is the translated one: 2 observers, B and H)"""
+    import inspect         # pylint: disable=import-outside-toplevel
+    if val is None:
+        return "FNone"
+    if not callable(val):
+        return "FNotCallable"
+    ok = inspect.getfullargspec(val).args[:2] == ["field", "observers"]
+    outs = []
+    if ok:
+        for field in ("B", "H"):
+            try:
+                o = val(field, np.array([[1, 2, 3], [4, 5, 6]]))
+            except Exception:      # pylint: disable=broad-except
+                outs.append("FoRaises")
+                continue
+            outs.append("FoNone" if o is None else f"(FoArray {cshape(o.shape)})" if isinstance(o, np.ndarray)
+                        else "FoNotArray")
+    return f"(FCallable {'true' if ok else 'false'} {clist(outs)})"
+
+
 def c_res(outcome):
     return "Ok" if outcome == "accepted" else ("Bad" if outcome == "lib" else "Crash")
 
@@ -927,9 +993,14 @@ def model_rows():
     rows = []
     for cls_name, (make, _, attrs) in get_specs().items():
         for attr, doc in attrs.items():
-            if doc[0] in ("orientation", "func"):
-                continue
             own = owner_of(make, attr)
+            if doc[0] == "func":
+                rows.append((cls_name, attr, "setter", own, attr))
+                continue
+            if doc[0] == "orientation":
+                rows.append((cls_name, attr, "setter", own, attr))
+                rows.append((cls_name, attr, "ctor", own, "orientation@init"))
+                continue
             if (cls_name, attr) in CTOR_ONLY:
                 rows.append((cls_name, attr, "ctor", cls_name, attr + "@init"))
             else:
@@ -980,7 +1051,11 @@ def correspondence(ctx, built):
                 # consistency of faces with vertices / mesh checks happen after the validators: not modelled
                 ctx.bump("corr:skipped-mesh-consistency")
                 continue
-            if doc[0] == "scalar":
+            if doc[0] == "orientation":
+                term = f'XOri "{ccls}" "{cattr}" {c_oinput(val)} {c_oout(outcome, obj)}'
+            elif doc[0] == "func":
+                term = f'XFun "{cls_name}" "{ccls}" "{cattr}" {c_finput(val)} {c_res(outcome)}'
+            elif doc[0] == "scalar":
                 term = f'XSca "{ccls}" "{cattr}" {c_sinput(val)} {c_sout(outcome, raw)}'
             elif doc[0] == "member":
                 term = f'XMem "{ccls}" "{cattr}" {c_minput(val)} {c_res(outcome)}'
